@@ -53,7 +53,7 @@ var Check = &run.Check{
 	Run: runCase,
 }
 
-var opts = javagen.Opts{ExoticNames: true, MinFiles: 1, MaxFiles: 5, MaxMethods: 8, MaxParams: 4, MaxFields: 4, Generics: true, Annotations: true, Ctors: true,
+var opts = javagen.Opts{AnonClasses: true, AccessorNames: true, ExoticNames: true, MinFiles: 1, MaxFiles: 5, MaxMethods: 8, MaxParams: 4, MaxFields: 4, Generics: true, Annotations: true, Ctors: true,
 	Bodies: true, MaxStmts: 8, MaxSites: 25, Shadowing: true, SuffixImports: true, SameNameTwoPkgs: true, Lambdas: true, FieldsFirst: true}
 
 func runCase(c *run.Ctx, o *run.Outcome) {
